@@ -189,7 +189,9 @@ Definition wf_C27 (rs : list rspec) (cs : list cspec) (script : list ev) : bool 
   nodupb (map cs_tok cs)
   && private cs
   && forallb (fun c => forallb (call_ok rs) (calls_of (cs_prog c))) cs
-  && forallb (fun sp => 0 <=? rs_pre sp) rs
+  (* nothing negative is preloaded; a sealed memfd is empty and has no other end *)
+  && forallb (fun sp => (0 <=? rs_pre sp)
+                        && match rs_kind sp with KSealed => (rs_pre sp =? 0) && rs_eof sp | _ => true end) rs
   && no_join script
   (* every caller is started *)
   && forallb (started script) (seq_nat O (length cs))
